@@ -133,6 +133,32 @@ def lit_value(e):
 
 # ---------------------------------------------------------------- types
 
+def format_text(root):
+    """The literal text pieces of the format strings expanded below `root` (rustc lowers a template to a byte string in
+    which the pieces are length-prefixed; the printable runs are the text)."""
+    out = []
+    for l in nodes(root, "Lit"):
+        if "desugaring of format string literal" in (l.get("mx") or []) and isinstance(l["lit"].get("v"), str):
+            try:
+                raw = bytes.fromhex(l["lit"]["v"])
+            except ValueError:
+                out.append(l["lit"]["v"])
+                continue
+            run = ""
+            for ch in raw:
+                if 32 <= ch < 127:
+                    run += chr(ch)
+                else:
+                    if run:
+                        out.append(run)
+                    run = ""
+            if run:
+                out.append(run)
+        elif l["lit"].get("k") == "str":
+            out.append(str(l["lit"].get("v")))
+    return out
+
+
 def peel(crate, ti, wrappers=("ref", "box")):
     """Peel references and Box; returns type dict."""
     t = crate.ty(ti)
